@@ -151,8 +151,33 @@ def run_filter(filt, x):
 FRACTIONAL_CASE = [False]
 
 
-def compare_out(ctx, case, what, got, want, exact=True):
-  tol = 1e-12
+def growth(filt, n):
+  """How much the recursion of the REAL (unreduced) denominator amplifies a
+  rounding error within n samples: sum |h[k]|, h = impulse response of 1/den,
+  in exact arithmetic.  Only used to scale the tolerance of the comparisons
+  that go through float coefficients (non-dyadic Fractions are written into
+  the generated source as "p/q" and evaluated in floats there)."""
+  try:
+    den = fracdict(dict(filt.denpoly.terms()))
+  except Exception:  # noqa
+    return 1.0
+  if not den:
+    return 1.0
+  p = min(den)
+  den = {k - p: v for k, v in den.items()}
+  a0 = den[0]
+  h = []
+  for i in range(n):
+    acc = Fraction(1 if i == 0 else 0)
+    for k, a in den.items():
+      if k and i - k >= 0:
+        acc -= a * h[i - k]
+    h.append(acc / a0)
+  return float(max(1, sum(abs(v) for v in h)))
+
+
+def compare_out(ctx, case, what, got, want, exact=True, amp=1.0):
+  tol = 1e-12 * amp
   if len(got) != len(want):
     ctx.violation(what + "/wrong-length", case, got=len(got), want=len(want))
     return False
@@ -196,10 +221,12 @@ def check_composite(ctx, case, what, real, mdl, x, parts_out=None):
   num, den = mdl.normalised()
   want = recursion(num, den, x, None, 0)
   exact = coeffs_exact(real)
-  if not compare_out(ctx, case, what, out[1], want, exact):
+  amp = 1.0 if exact else growth(real, len(x))
+  if not compare_out(ctx, case, what, out[1], want, exact, amp):
     return False
   if parts_out is not None:
-    if not compare_out(ctx, case, what + "/vs-parts", out[1], parts_out, exact):
+    if not compare_out(ctx, case, what + "/vs-parts", out[1], parts_out, exact,
+                       amp):
       return False
   return True
 
@@ -470,7 +497,8 @@ def run_alg(ctx, case):
     num, den = mdl.normalised()
     want = recursion(num, den, x, None, 0)
     if not compare_out(ctx, case, what, got, want,
-                       all(coeffs_exact(mk(p)) for p in parts)):
+                       all(coeffs_exact(mk(p)) for p in parts),
+                       growth(cont, xlen)):
       return True
     ctx.count("container:" + what)
     try:
@@ -538,7 +566,8 @@ def run_alg(ctx, case):
       num, den = mdl.normalised()
       if out[0] != "out" or not compare_out(
           ctx, case, "operand-after-reuse", out[1],
-          recursion(num, den, x, None, 0), coeffs_exact(obj)):
+          recursion(num, den, x, None, 0), coeffs_exact(obj),
+          growth(obj, len(x))):
         if out[0] != "out":
           ctx.violation("operand-after-reuse/refuses-to-run", case,
                         operand=name, got=out)
